@@ -53,7 +53,21 @@ def run(ctx):
             slow_size = 16 <= i < 20      # corpus: a client whose send(Size) is SLOW (20 ms): an operation queued before its size is announced shows as copied > announced
             if slow_size:
                 nfiles = 5
+            deep_tree = 20 <= i < 22      # corpus: entries far below the source (70 levels): announced and copied like any other
+            in_flight = 22 <= i < 26      # corpus: when the walk ends every block is already TAKEN by a worker and still being copied (slow copies, more workers than blocks)
             lens = make_tree(root, rng, nfiles, rng.choice([300, 5000, 70000]))
+            if deep_tree:
+                dd = root + '/S/sub' + '/d' * 70
+                os.makedirs(dd); open(dd + '/leaf', 'wb').write(b'L' * 333); open(root + '/S/sub' + '/d' * 65 + '/mid', 'wb').write(b'M' * 50)
+                lens = lens + [333, 50]
+            if in_flight:
+                shutil.rmtree(root + '/S/sub'); os.unlink(root + '/S/link')
+                for f in os.listdir(root + '/S'):
+                    os.unlink(f'{root}/S/{f}')
+                open(root + '/S/big', 'wb').write(os.urandom(4096 * 5)); lens = [4096 * 5]; nfiles = 1
+                os.makedirs(root + '/S/zl'); os.makedirs(root + '/D')      # operands `S/big S/zl D`: after the file, 40 links the dispatcher creates itself
+                for k in range(40):
+                    os.symlink('../big', f'{root}/S/zl/l{k}')
             total = sum(lens)
             driver = ['parfile', 'parblock'][i % 2]
             workers = rng.choice([1, 2, 8])
@@ -70,11 +84,19 @@ def run(ctx):
             elif i < 16 and i >= 12:  # corpus: creating a destination file fails with ENOENT (its directory vanished, a dangling link): an error, not "source vanished"
                 driver = 'parfile'; workers = [1, 4][i % 2]; updater = ['record', 'noop', 'channel', 'record'][i - 12]
                 fault = True; forced = f'fail openat D/ {1 + i % 3} {E["ENOENT"]}'
+            elif deep_tree:
+                driver = ['parfile', 'parblock'][i % 2]; workers = 2; updater = ['record', 'noop'][i % 2]; fault = False
+            elif in_flight:
+                driver = 'parblock'; workers = 16; bsize = 4096; updater = ['record', 'noop', 'channel', 'record'][i - 22]; fault = False
             elif slow_size:
                 driver = ['parfile', 'parblock'][i % 2]; workers = 4; updater = 'record'; fault = False; bsize = [4096, 1 << 20][(i // 2) % 2]
             elif i < 12:  # corpus: a source sub-directory that cannot be listed (EACCES, as for an unprivileged user): Error or Err, never silence
                 fault = True; forced = f'fail openat =S/sub 1 {E["EACCES"]}'
-            if rng.random() < 0.5 and not slow_size:
+            if in_flight:
+                plan.append('stall copy_file_range 200000'); ctx.count('all_blocks_in_flight_at_end_of_walk')
+            elif deep_tree:
+                ctx.count('deep_tree_70_levels')
+            elif rng.random() < 0.5 and not slow_size:
                 plan.append(f'sched {ctx.seed * 13 + i} {rng.choice(["pct", "delay"])} {rng.randint(1, 3)}')
             if fault:
                 victim = f'f{rng.randrange(nfiles)}'
@@ -86,7 +108,7 @@ def run(ctx):
                 argv += ['--stall-us', '20000']; ctx.count('slow_size_client')
             elif updater == 'record' and rng.random() < 0.5:
                 argv += ['--stall-us', str(rng.choice([100, 500]))]
-            argv += ['--', 'S', 'D']
+            argv += ['--', 'S/big', 'S/zl', 'D'] if in_flight else ['--', 'S', 'D']
             r = scen.run_xcp(root, argv, plan=plan, timeout=120, binary=probe)
             ups, result, closed = parse_stream(r.stdout_full if hasattr(r, 'stdout_full') else r.stdout)
             ctx.count(f'driver.{driver}'); ctx.count(f'updater.{updater}'); ctx.count('faulted' if fault else 'unfaulted'); ctx.count(f'result.{result}'); ctx.count(f'bsize.{bsize if bsize < 1 << 60 else "u64::MAX"}')
